@@ -558,4 +558,95 @@ def periodicArray (fl : K → Int) (rnd : K → Int) (pad : K) (u : V3 K → V3 
 
 end
 
+/-! ### disregistry (atomman/defect/disregistry.py) -/
+section
+variable {K : Type} [Add K] [Sub K] [Mul K] [Div K] [Neg K] [Zero K] [One K] [IntCast K]
+  [LT K] [LE K] [DecidableLT K] [DecidableLE K]
+
+/-- `uniquey[uniquey > midy].min()` (`none`: numpy's ValueError for the empty selection). -/
+def minAbove (mid : K) : List K → Option K
+  | [] => none
+  | y :: r =>
+    match minAbove mid r with
+    | none => if mid < y then some y else none
+    | some a => if mid < y then (if y < a then some y else some a) else some a
+
+/-- `uniquey[uniquey < midy].max()`. -/
+def maxBelow (mid : K) : List K → Option K
+  | [] => none
+  | y :: r =>
+    match maxBelow mid r with
+    | none => if y < mid then some y else none
+    | some a => if y < mid then (if a < y then some y else some a) else some a
+
+/-- insertion into a strictly increasing list, dropping equal values. -/
+def insertSorted (x : K) : List K → List K
+  | [] => [x]
+  | y :: r => if x < y then x :: y :: r else if y < x then y :: insertSorted x r else y :: r
+
+/-- `np.unique` (sorted, duplicates removed). -/
+def sortedUnique (xs : List K) : List K := xs.foldr insertSorted []
+
+/-- `arr.mean(axis=0)` of displacement vectors. -/
+def meanV (ds : List (V3 K)) : V3 K :=
+  let s := ds.foldl (· + ·) (⟨0, 0, 0⟩ : V3 K)
+  let n : K := ((ds.length : Int) : K)
+  ⟨s.x / n, s.y / n, s.z / n⟩
+
+/-- `np.interp(x, xp, fp)` component-wise for increasing `xp`: end values are held outside `[xp₀, xp_last]`. -/
+def interpGo (x : K) (x0 : K) (f0 : V3 K) : List K → List (V3 K) → V3 K
+  | x1 :: xr, f1 :: fr =>
+    if x < x1 then f0 + V3.smul ((x - x0) / (x1 - x0)) (f1 - f0) else interpGo x x1 f1 xr fr
+  | _, _ => f0
+
+def interp (xp : List K) (fp : List (V3 K)) (x : K) : V3 K :=
+  match xp, fp with
+  | x0 :: xr, f0 :: fr => if x ≤ x0 then f0 else interpGo x x0 f0 xr fr
+  | _, _ => ⟨0, 0, 0⟩
+
+/-- one atom of the reference system as `disregistry` sees it: coordinate along `m`, along `n`, displacement. -/
+structure DRow (K : Type) where
+  x : K
+  y : K
+  d : V3 K
+
+structure Disreg (K : Type) where
+  /-- heights (along `n`) of the two atomic planes used -/
+  above : K
+  below : K
+  coord : List K
+  vals : List (V3 K)
+
+/-- the atoms of the plane at height `h`: `np.isclose(ally, h)`. -/
+def planeRows (atol rtol h : K) (rows : List (DRow K)) : List (DRow K) :=
+  rows.filter fun r => isclose atol rtol r.y h
+
+/-- mean displacement of each atomic column of a plane: `disp[np.isclose(xs, ix)].mean(axis=0)` for `ix` in
+    `np.unique(xs)`. -/
+def columnMeans (atol rtol : K) (pl : List (DRow K)) (ux : List K) : List (V3 K) :=
+  ux.map fun ix => meanV ((pl.filter fun r => isclose atol rtol r.x ix).map (·.d))
+
+/-- `disregistry(basesystem, dislsystem, m, n, planepos)` given the displacement of every atom (`disp`, C-level
+    `displacement`): the two atomic planes adjoining the slip plane through `planepos`, the union of their atomic
+    columns, displacement above minus displacement below, each linearly interpolated to every column.
+    Errors: no plane above / below (`ValueError` of the empty `min`/`max`), planes indistinguishable. -/
+def disregistry (atol rtol : K) (m n planepos : V3 K) (basepos disp : List (V3 K)) : Except String (Disreg K) :=
+  let rows := List.zipWith (fun p d => (⟨V3.dot p m, V3.dot p n, d⟩ : DRow K)) basepos disp
+  let midy := V3.dot planepos n
+  let ys := rows.map (·.y)
+  match minAbove midy ys, maxBelow midy ys with
+  | some a, some b =>
+    if isclose atol rtol a b then .error "value" else
+    let pa := planeRows atol rtol a rows
+    let pb := planeRows atol rtol b rows
+    let ua := sortedUnique (pa.map (·.x))
+    let ub := sortedUnique (pb.map (·.x))
+    let coord := sortedUnique (ua ++ ub)
+    let ma := columnMeans atol rtol pa ua
+    let mb := columnMeans atol rtol pb ub
+    .ok ⟨a, b, coord, coord.map fun x => interp ua ma x - interp ub mb x⟩
+  | _, _ => .error "value"
+
+end
+
 end Atomman.C13
